@@ -345,7 +345,28 @@ class Ctx:
                         not extra, 'unexpected axioms: ' + ', '.join(extra))
             self.cov['theorems'].append({'name': n, 'axioms': ax})
         self.trust('coqc 8.16.1 kernel incl. vm_compute (no native_compute)')
+        if not self.quick and os.environ.get('VERIF_NO_COQCHK') != '1':
+            self.coqchk('Props.' + self.pid, allowed)
         return True, log
+
+    def coqchk(self, module, allowed, timeout=2400):
+        """Thorough tier: re-check the compiled property library and everything it depends on with the independent
+        checker and record the axioms it reports (of every loaded library)."""
+        rc, out = sh('timeout %d coqchk -silent -o -Q theories %s %s.%s' % (timeout, LOGICAL, LOGICAL, module), cwd=COQ, timeout=timeout + 60)
+        if rc == 124:
+            self.cov['coqchk'] = {'status': 'timeout after %ds' % timeout}
+            self.oblige('coqchk -o %s finished within %ds' % (module, timeout), False, out[-1500:])
+            return
+        m = re.search(r'\* Axioms:(.*?)\n\s*\n\* Constants/Inductives relying on type-in-type:(.*?)\n\s*\n\* Constants/Inductives relying on unsafe \(co\)fixpoints:(.*?)\n\s*\n\* Inductives whose positivity is assumed:(.*?)(\n\s*\n|\Z)', out, re.S)
+        if rc != 0 or not m:
+            self.oblige('coqchk -o %s' % module, False, out[-3000:])
+            return
+        axioms = [a.strip() for a in m.group(1).strip().split('\n') if a.strip() and a.strip() != '<none>']
+        unsafe = [x.strip() for g in (2, 3, 4) for x in m.group(g).strip().split('\n') if x.strip() and x.strip() != '<none>']
+        self.cov['coqchk'] = {'status': 'ok', 'axioms_of_all_loaded_libraries': axioms[:200], 'unsafe': unsafe}
+        self.oblige('coqchk -o %s: independent re-check passed, no type-in-type / unsafe fixpoints / assumed positivity (%d axioms of loaded libraries listed in the evidence)'
+                    % (module, len(axioms)), not unsafe, 'unsafe: %s' % unsafe)
+        self.trust('coqchk 8.16.1 (thorough tier): re-checked %s and its dependencies' % module)
 
     def coq_eval(self, vtext, name, timeout=900):
         return coq_run(vtext, self.pid + '_' + name, timeout)
